@@ -1,4 +1,5 @@
 import CattrsModel.Dispatch.LemmasHist
+import CattrsModel.Dispatch.StoreHist
 /-!
 # C08 — caches are transparent: behaviour depends only on options and registrations
 
@@ -104,6 +105,29 @@ theorem C08_registration_immediate_pred (F : Facts) (cfg : Cfg) (ops : List Op) 
   rw [this]
   simp [firstEntry, regStep, Entry.accepts, PredRef.holds, hp, entryHook]
 
+/-- **C08_transparent_store.**  Transparency for a converter ANYWHERE in a program, copies included: "a converter's
+behaviour is a function of its construction options and its registration history alone".  After ANY store history
+(operations on any converter — registrations, warm-up dispatches and calls —, `copy` steps with any option overrides,
+copies of copies), every converter of the store answers every call, cached dispatch and uncached dispatch exactly as
+a FRESH converter that is constructed as its origin says (`o.cfg`: for a copy the constructor under the copy's options
+with the source's fallback factory) and replays only the REGISTRATIONS of its own history (`o.hist.filter Op.isReg`:
+for a copy those its source had received when the copy was taken, then its own).  In particular nothing the source of
+a copy was USED for before the copy — what sits in its lru cache and its direct table — reaches the copy. -/
+theorem C08_transparent_store (F : Facts) (st : Bool) (sg : List (TyKey × Hook)) (cfgs : List Cfg)
+    (hcfgs : ∀ c ∈ cfgs, c.fits st sg) (sops : List SOp) (hsops : ∀ op ∈ sops, op.fits st sg)
+    (i : Nat) (s : St) (o : Origin)
+    (hs : (srun F (cfgs.map init) sops)[i]? = some s) (ho : (origins cfgs sops)[i]? = some o) (t : TyKey) :
+    let f := run F (init o.cfg) (o.hist.filter Op.isReg)
+    (call F s t).2 = (call F f t).2 ∧ (dispatch F s t).2 = (dispatch F f t).2 ∧
+      (dispatchUncached F s t).2 = (dispatchUncached F f t).2 := by
+  intro f
+  have k := (srun_tracked F st sg sops _ _ (tracked_fresh F st sg cfgs hcfgs) hsops).2 i s o hs ho
+  have gf := run_init F o.cfg (o.hist.filter Op.isReg)
+  have e : RegEquiv s.regs f.regs := by
+    rw [gf.2, regsAfter_filter]; exact k.equiv
+  have := obs_eq_of_equiv F s f k.ok gf.1 e t
+  exact ⟨this.2.2, this.1, this.2.1⟩
+
 /-! ## non-vacuity -/
 namespace C08ex
 
@@ -139,6 +163,24 @@ example : (run F (init cfg) (warm ++ [.regHook 0 7] ++ warm)).lru ≠ [] ∧
     CacheOK F (run F (init cfg) (warm ++ [.regHook 0 7] ++ warm)) :=
   ⟨by decide, (run_init F cfg _).1⟩
 example : ((warm ++ [Op.regHook 0 7] ++ warm).filter Op.isReg).length = 1 := by decide
+
+/-- a store: the source is warmed on everything (both caches full), copied under other options (lists handled by
+another built-in hook, 301), then the SOURCE registers a class hook for A -/
+def cfg' : Cfg :=
+  { cfg with preds := [ { pred := .exact 0, kind := .factory, tag := 200, builtin := true, sub := .uncached },
+                        { pred := .exact 1, kind := .factory, tag := 301, builtin := true, sub := .uncached, direct := true },
+                        { pred := .exact 2, kind := .factory, tag := 202, builtin := true, sub := .uncached, direct := true } ] }
+
+def shist : List SOp := (warm.map (SOp.on 0)) ++ [.copy 0 cfg', .on 0 (.regHook 0 7), .on 1 (.call 2)]
+
+example : cfg.fits false cfg.single ∧ cfg'.fits false cfg.single := ⟨⟨by decide, rfl, rfl⟩, ⟨by decide, rfl, rfl⟩⟩
+-- the source's caches were full when the copy was taken ...
+example : ((srun F [init cfg] (warm.map (SOp.on 0)))[0]?.map (fun s => (s.lru.length, s.direct.length))) = some (2, 2) := by decide
+-- ... the copy nevertheless builds list[A] with ITS built-in hook (301) and does not see the source's later hook for A
+example : (srun F [init cfg] shist).map (fun s => (dispatch F s 2).2) =
+    [ .made 202 2 false [.builtin 100, .made 201 1 false [.user 7]],
+      .made 202 2 false [.builtin 100, .made 301 1 false [.made 200 0 false []]] ] := by decide
+example : (origins [cfg] shist).map (fun o => (o.hist.filter Op.isReg).length) = [1, 0] := rfl
 
 end C08ex
 end CattrsModel
